@@ -89,6 +89,8 @@ class Program:
                         base=<class name or None>
        hashlib: name of the module whose `.sha256` builds a Hasher (None = not available)."""
 
+    TR = None                    # translator class of the methods (None = MTr); a subclass of Program may set a subclass of MTr
+
     def __init__(self, classes, hashlib='hashlib', bitarray='bitarray', src=''):
         self.classes = classes
         self.hashlib = hashlib
@@ -186,7 +188,7 @@ class Program:
         self.names[lean] = key
         self.stack.append((owner, name))
         try:
-            tr = MTr(self, cls, owner, fn, list(argtypes), lean, ctor=ctor, ctor_struct=ctor_struct)
+            tr = (self.TR or MTr)(self, cls, owner, fn, list(argtypes), lean, ctor=ctor, ctor_struct=ctor_struct)
             info = tr.translate()
         finally:
             self.stack.pop()
@@ -232,6 +234,12 @@ def falls_through(stmts):
 
 
 class MTr(BTr):
+    # hooks for subclasses (pyprims.py): statement / expression kinds refused outright, and the implicit environment parameter
+    FORBIDDEN = (ast.FunctionDef, ast.Lambda, ast.Global, ast.Nonlocal, ast.While, ast.Try, ast.With, ast.Break, ast.Yield,
+                 ast.YieldFrom, ast.Await, ast.Delete, ast.NamedExpr, ast.Starred)
+    ENV_NAME = 'H'                                # the hash function of hashlib.sha256 (a parameter of every definition using it)
+    ENV_DECL = '(H : Bytes → Bytes)'
+
     def __init__(self, prog, cls, owner, fn, argtypes, lean, ctor=None, ctor_struct=None):
         super().__init__([])
         self.prog, self.cls, self.owner, self.fn, self.lean, self.ctor = prog, cls, owner, fn, lean, ctor
@@ -258,8 +266,7 @@ class MTr(BTr):
         self.mutated = sorted(prog.mutated_attrs(cls, fn.name))
         self.mut_names = self.mutated_names(fn)
         for n in ast.walk(fn):
-            if isinstance(n, (ast.FunctionDef, ast.Lambda, ast.Global, ast.Nonlocal, ast.While, ast.Try, ast.With, ast.Break, ast.Yield,
-                              ast.YieldFrom, ast.Await, ast.Delete, ast.NamedExpr, ast.Starred)) and n is not fn:
+            if isinstance(n, self.FORBIDDEN) and n is not fn:
                 raise Untranslatable(f'{fn.name}: {type(n).__name__}')
             if isinstance(n, ast.Name) and isinstance(n.ctx, ast.Store) and (n.id == 'H' or n.id.startswith('self_') or n.id == 'self'):
                 raise Untranslatable(f'local name {n.id}')
@@ -525,7 +532,7 @@ class MTr(BTr):
         for kind, py, ln, t in info['sig']:
             if kind == 'H':
                 self.uses_H = True
-                actual.append('H')
+                actual.append(self.ENV_NAME)
             elif kind == 'attr':
                 if recv is None:
                     key, have = self.attr_stored(py)
@@ -890,7 +897,7 @@ class MTr(BTr):
         else:
             rt = ' × '.join(tpar(self.prog.lean_ty(self.attr_type(m))) for m in self.mutated) if self.mutated else 'Unit'
         sig = ([('H', 'H', 'H', None)] if self.uses_H else []) + self.sig
-        ps = ' '.join('(H : Bytes → Bytes)' if k == 'H' else f'({ln} : {self.prog.lean_ty(t)})' for k, _, ln, t in sig)
+        ps = ' '.join(self.ENV_DECL if k == 'H' else f'({ln} : {self.prog.lean_ty(t)})' for k, _, ln, t in sig)
         doc = pybytes.doc_of(self.fn, f'{self.prog.classes[self.owner].get("src", self.prog.src)}: {self.owner}.{self.fn.name}')
         text = f'{doc}def {self.lean} {ps} : Option ({rt}) :=\n{indent(body)}\n'
         return dict(lean=self.lean, sig=sig, ret=self.ret_type if self.has_value_return else None,
